@@ -8,7 +8,7 @@
 //@ enforce: xcm_send
 //@ replace: msg_bsend bytestream_bsend socket_finish socket_wait xcm_tp_socket_send xcm_tp_socket_is_bytestream
 //@ props: C01 C02 C03 C05
-//@ expect: postcondition>=9 canary=5
+//@ expect: postcondition>=10 canary=5
 #include "_unit.h"
 void harness(void)
 {
